@@ -17,8 +17,24 @@ class AnalysisError(Exception):
     """Something the analysis relies on vanished or is outside the supported subset (exit 2)."""
 
 
+_MANGLED = None
+
+
+def demangle(text):
+    """names of inlined helper locals (`_i12_key`) are shown with their original spelling"""
+    global _MANGLED
+    if _MANGLED is None:
+        import re
+        _MANGLED = re.compile(r"\b_i\d+_")
+    return _MANGLED.sub("", text)
+
+
 def norm(node):
     """Normalised one-line text of a statement/expression (keys for findings; never line numbers)."""
+    return demangle(_norm(node))
+
+
+def _norm(node):
     if isinstance(node, (ast.If, ast.While)):
         return type(node).__name__.lower() + " " + ast.unparse(node.test)
     if isinstance(node, ast.For):
